@@ -417,6 +417,22 @@ func init() {
 			rd := c.MustFn("(*docValueReader).visitDocValues")
 			key = fnName(rd) + "/dv-split"
 			okR, whyR := false, "no bytes.Index split found"
+			// (the split loop may sit in a helper that is handed the visitor)
+			if len(callsOfFull(rd, "bytes.Index")) == 0 {
+				for _, h := range staticCallees(rd) {
+					if c.inRoot(h) && h.Blocks != nil && len(callsOfFull(h, "bytes.Index")) > 0 {
+						rd = h
+					}
+				}
+			}
+			isVisitor := func(v ssa.Value) bool {
+				p, ok := v.(*ssa.Parameter)
+				if !ok || p.Parent() != rd {
+					return false
+				}
+				_, isFn := p.Type().Underlying().(*types.Signature)
+				return isFn
+			}
 			for _, b := range rd.Blocks {
 				for _, ins := range b.Instrs {
 					call, ok := ins.(*ssa.Call)
@@ -432,7 +448,7 @@ func init() {
 						for _, b2 := range rd.Blocks {
 							for _, i2 := range b2.Instrs {
 								vc, ok := i2.(*ssa.Call)
-								if !ok || vc.Call.Value != ssa.Value(rd.Params[2]) {
+								if !ok || !isVisitor(vc.Call.Value) {
 									continue
 								}
 								sl, ok := vc.Call.Args[1].(*ssa.Slice)
